@@ -244,6 +244,12 @@ func (opts Options) vFlowIsRunning() bool {
 		return false
 	}
 
+	// a pid file left by an earlier run can record this process's own PID
+	// (PIDs repeat in a container): that is not another instance
+	if string(b) == strconv.Itoa(os.Getpid()) {
+		return false
+	}
+
 	cmd := exec.Command("kill", "-0", string(b))
 	_, err = cmd.Output()
 
